@@ -231,14 +231,14 @@ func init() {
 						return
 					}
 					files := map[string]string{
-						"layouts/main.tw":   "L<" + t + ">@reserve(\"body\")<" + t + ">",
-						"components/box.tw": "C<" + t + ">@slot(\"a\")|@slot(\"b\")<" + t + ">",
-						"plain.tw":          "<" + t + ">",
-						"withlayout.tw":     "@use(\"~main\")@insert(\"body\")I<" + t + ">@end",
-						"withcomp.tw":       "P<" + t + ">@component(\"~box\")@slot(\"a\")S<" + t + ">@end {{-- between --}} @slot(\"b\")T<" + t + ">@end {{-- last --}} @end<" + t + ">",
-						"gap.tw":            "G@component(\"~box\")<" + t + ">",
+						"layouts/main.tw":    "L<" + t + ">@reserve(\"body\")<" + t + ">",
+						"components/box.tw":  "C<" + t + ">@slot(\"a\")|@slot(\"b\")<" + t + ">",
+						"plain.tw":           "<" + t + ">",
+						"withlayout.tw":      "@use(\"~main\")@insert(\"body\")I<" + t + ">@end",
+						"withcomp.tw":        "P<" + t + ">@component(\"~box\")@slot(\"a\")S<" + t + ">@end {{-- between --}} @slot(\"b\")T<" + t + ">@end {{-- last --}} @end<" + t + ">",
+						"gap.tw":             "G@component(\"~box\")<" + t + ">",
 						"components/bare.tw": "[@slot(\"a\")]",
-						"gapslot.tw":        "G@component(\"~bare\")" + t + "@slot(\"a\")S@end@end",
+						"gapslot.tw":         "G@component(\"~bare\")" + t + "@slot(\"a\")S@end@end",
 					}
 					tpl, err := loadTree(c, "c05tree", files, ".tw")
 					c.Nontrivial("files:" + t)
